@@ -868,7 +868,9 @@ var registeredModelTypes = map[string]bool{"NullModel": true, "DumbModel": true,
 // precisely: a catchment model over a data set of the catalogue with at most one limit is `ok`.
 func (cat *engCatalogue) scenarioFacts(body []byte) (string, *engScenario, string) {
 	var cfg scenCfg
-	if _, err := toml.Decode(string(body), &cfg); err != nil {
+	var err error
+	// toml v0.3.1 reports some malformed texts by panicking ("BUG: ..."): to the classification that is a text that does not decode
+	if p := protect(func() { _, err = toml.Decode(string(body), &cfg) }); p != "" || err != nil {
 		return "scen bad", nil, ""
 	}
 	if !registeredModelTypes[cfg.Model.Type] {
